@@ -7,24 +7,71 @@ package leanhelixterm
 // The protocol logic of one term; what the per-term filter may hand to it. The share of a COMMIT (the sender's signature over
 // the term's random seed, aggregated into the block proof's seed signature) is verified before the COMMIT is handed over.
 //@ iface leanhelixterm.TermMessagesHandler.HandlePrePrepare
+//@   requires [O12.the-term-is-not-a-typed-nil] dyn(self, *termincommittee.TermInCommittee) != nil
 //@   ensures true
 //@ iface leanhelixterm.TermMessagesHandler.HandlePrepare
+//@   requires [O12.the-term-is-not-a-typed-nil] dyn(self, *termincommittee.TermInCommittee) != nil
 //@   ensures true
 //@ iface leanhelixterm.TermMessagesHandler.HandleViewChange
+//@   requires [O12.the-term-is-not-a-typed-nil] dyn(self, *termincommittee.TermInCommittee) != nil
 //@   ensures true
 //@ iface leanhelixterm.TermMessagesHandler.HandleNewView
+//@   requires [O12.the-term-is-not-a-typed-nil] dyn(self, *termincommittee.TermInCommittee) != nil
 //@   ensures true
 //@ iface leanhelixterm.TermMessagesHandler.HandleCommit
+//@   requires [O12.the-term-is-not-a-typed-nil] dyn(self, *termincommittee.TermInCommittee) != nil
 //@   requires [well-formed] cm != nil && cm.content != nil
 //@   requires [O3.the-random-seed-share-of-a-commit-is-verified-before-it-is-counted] VerifiedSeed(caller.keyManager, cm.content.SignedHeader().BlockHeight(), randomseed.RandomSeedToBytes(caller.randomSeed), cm.content.Sender().MemberId(), cm.content.Share())
 //@   ensures true
 
+// The per-term filter's handler is either absent (this node is not in the committee) or a real term - never a nil
+// *TermInCommittee wrapped in the interface, which would pass the `handler == nil` test and crash on the first method
+// call (C12). Established by the constructor's precondition at both construction sites; the field is written nowhere
+// else (structural obligation field-writers), hence an object invariant.
+//@ pred HandlerOK(h TermMessagesHandler) = h == nil || (istype(h, *termincommittee.TermInCommittee) && dyn(h, *termincommittee.TermInCommittee) != nil)
+//@ func NewConsensusMessagesFilter
+//@   props C12
+//@   requires [O12.the-handler-is-absent-or-a-real-term-never-a-typed-nil] HandlerOK(handler)
+//@   ensures [wired] result != nil && result.handler == handler && result.keyManager == keyManager && result.randomSeed == randomSeed
+
 //@ func (*ConsensusMessagesFilter).HandleConsensusMessage
+//@   objinv [O12.the-handler-is-absent-or-a-real-term] HandlerOK(mp.handler)
 //@   props C03 C08 C12
 //@   safety iface
 //@   requires mp.keyManager != nil
 //@   requires [a-parsed-message] istype(message, *interfaces.PreprepareMessage) || istype(message, *interfaces.PrepareMessage) || istype(message, *interfaces.CommitMessage) || istype(message, *interfaces.ViewChangeMessage) || istype(message, *interfaces.NewViewMessage)
 //@   modifies *
+
+// A-SPI: the committee the consumer's Membership hands out has at least the hard minimum of members and a total weight
+// that fits 64 bits; on a terminated context nil is returned with an error. (Body: a polling loop around the SPI call with a
+// timed wait - outside the subset, trusted.)
+//@ func requestOrderedCommitteePersist
+//@   trusted
+//@   modifies M:S_state_HeightView:Int
+//@   ensures [A-SPI.committee] result1 == nil ==> len(result0) >= 4 && SumMW(result0, len(result0)) < 2^64
+//@   ensures result1 != nil ==> isnil(result0)
+
+//@ func isParticipatingInTerm
+//@   props C12
+//@   ensures [iff-member] result == (exists pi :: 0 <= pi && pi < len(committeeMembers) && committeeMembers[pi].Id == myMemberId)
+//@   loop range committeeMembers
+//@     invariant [none-so-far] forall pk :: 0 <= pk && pk < $i ==> committeeMembers[pk].Id != myMemberId
+
+// Building the term of a new height: message factory, committee, protocol logic (when this node is a member), filter.
+// Verified: the filter never gets a typed-nil handler, the protocol logic is built with the committee just obtained, a
+// factory that signs as this node with the configured key manager, and the commit callback wrapper. Assumed at call sites
+// (ghost function, not code): the term belongs to the height the state holds.
+//@ func NewLeanHelixTerm
+//@   props C12 C13 C17
+//@   requires [A-NONNIL.the-configured-spi-objects-are-present] config != nil && config.KeyManager != nil && config.BlockUtils != nil && config.Membership != nil && state != nil && state.Contexts != nil && electionTrigger != nil
+//@   requires [A-KM-SIGN] SignsAs(config.KeyManager, config.Membership.MyMemberId())
+//@   requires [O13.earlier-commits-are-below-the-new-height] lastCommitHeight < state.height
+//@   modifies @TICSTART, interfaces.Config.Storage, ghost:ncommitted, ghost:lastVC
+//@   ensures [built] result != nil && result.ConsensusMessagesFilter != nil
+//@   ensures [O12.the-filter-handler-is-absent-or-a-real-term] HandlerOK(result.ConsensusMessagesFilter.handler)
+//@   ensures [participating-iff-handler] (result.termInCommittee == nil) == (result.ConsensusMessagesFilter.handler == nil)
+//@   ensures [height-untouched] state.height == old(state.height)
+//@   assume [A-GHOST.the-term-belongs-to-the-current-height] TermHeightOf(result) == state.height
 
 // disposing the term disposes its protocol logic (which stops the election timer, C16)
 //@ func (*LeanHelixTerm).Dispose
